@@ -18,12 +18,32 @@ def chain_steps(tree, rels=None):
                         and isinstance(call.args[0], ast.Call) and (call_name(call.args[0]) or '').endswith('ChainStep')):
                     continue
                 step = call.args[0]
+                target = dotted(call.func.value) or ''
+                envs = _loop_envs(func, call)
+                if envs is not None:
+                    # steps made in a loop over a literal table: one step per row, the row substituted for the loop target
+                    for env in envs:
+                        order = _subst(kwarg(step, 'order', 0), env)
+                        action = _subst(kwarg(step, 'action', 2), env)
+                        oval = _num(tree, rel, order)
+                        if oval is None:
+                            raise AnalysisError('ChainStep order is not a numeric literal: ' + src(step)[:80])
+                        if func.name == 'add_chains':
+                            params = [a.arg for a in func.args.args]
+                            chain = 'rx' if target == params[1] else ('tx' if len(params) > 2 and target == params[2] else None)
+                        else:
+                            chain = 'rx' if 'rx' in target else ('tx' if 'tx' in target else None)
+                        if chain is None:
+                            raise AnalysisError('cannot tell the chain a step is appended to: ' + src(call)[:80])
+                        aname = action.attr if isinstance(action, ast.Attribute) else src(action)
+                        cls = enclosing(func, (ast.ClassDef,))
+                        res.append(dict(rel=rel, cls=cls.name if cls else None, func=qual, chain=chain, order=oval, action=aname, node=step))
+                    continue
                 order = kwarg(step, 'order', 0)
                 action = kwarg(step, 'action', 2)
                 oval = _num(tree, rel, order)
                 if oval is None:
                     raise AnalysisError('ChainStep order is not a numeric literal: ' + src(step)[:80])
-                target = dotted(call.func.value) or ''
                 if func.name == 'add_chains':
                     params = [a.arg for a in func.args.args]
                     chain = 'rx' if target == params[1] else ('tx' if len(params) > 2 and target == params[2] else None)
@@ -37,9 +57,61 @@ def chain_steps(tree, rels=None):
     return res
 
 
+def _loop_envs(func, node):
+    ''' the rows of the literal table a statement is repeated over: [{name: row element}] when <node> sits in exactly one
+    `for <names> in <tuple/list literal, or a local bound once to one>`; None when it is in no loop '''
+    loops = []
+    cur = getattr(node, '_parent', None)
+    while cur is not None and cur is not func:
+        if isinstance(cur, (ast.For, ast.While)):
+            loops.append(cur)
+        cur = getattr(cur, '_parent', None)
+    if not loops:
+        return None
+    if len(loops) != 1 or not isinstance(loops[0], ast.For):
+        raise AnalysisError('chain step made in a loop that is not a single for over a literal table')
+    loop = loops[0]
+    it = loop.iter
+    if isinstance(it, ast.Name):
+        defs = [n for n in walk_local(func) if isinstance(n, ast.Assign) and len(n.targets) == 1 and isinstance(n.targets[0], ast.Name) and n.targets[0].id == it.id]
+        if len(defs) != 1:
+            raise AnalysisError('chain step table {} is not bound exactly once'.format(it.id))
+        it = defs[0].value
+    if not isinstance(it, (ast.Tuple, ast.List)):
+        raise AnalysisError('chain steps made in a loop over something that is not a literal table: ' + src(loop.iter)[:60])
+    tgt = loop.target
+    envs = []
+    for row in it.elts:
+        if isinstance(tgt, ast.Name):
+            envs.append({tgt.id: row})
+        elif isinstance(tgt, (ast.Tuple, ast.List)) and isinstance(row, (ast.Tuple, ast.List)) and len(row.elts) == len(tgt.elts) and all(isinstance(t, ast.Name) for t in tgt.elts):
+            envs.append({t.id: e for (t, e) in zip(tgt.elts, row.elts)})
+        else:
+            raise AnalysisError('chain step table row does not match the loop target: ' + src(row)[:60])
+    return envs
+
+
+def _subst(expr, env):
+    if expr is None:
+        return None
+    import copy
+
+    class Sub(ast.NodeTransformer):
+        def visit_Name(self, n):
+            if isinstance(n.ctx, ast.Load) and n.id in env:
+                return copy.deepcopy(env[n.id])
+            return n
+    return Sub().visit(copy.deepcopy(expr))
+
+
 def _num(tree, rel, expr):
     if expr is None:
         return 0
+    if isinstance(expr, ast.BinOp) and isinstance(expr.op, (ast.Add, ast.Sub, ast.Mult)):
+        (a, b) = (_num(tree, rel, expr.left), _num(tree, rel, expr.right))
+        if a is None or b is None:
+            return None
+        return a + b if isinstance(expr.op, ast.Add) else (a - b if isinstance(expr.op, ast.Sub) else a * b)
     if isinstance(expr, ast.Constant) and isinstance(expr.value, (int, float)):
         return expr.value
     if isinstance(expr, ast.UnaryOp) and isinstance(expr.op, ast.USub) and isinstance(expr.operand, ast.Constant):
@@ -273,6 +345,25 @@ def entry_fidelity(tree, ob, rel, qual):
     else:
         ob.violate(rel, qual, 'BytesIO({})'.format(text[:60]), 'the bundle queued for sending is not the byte array that was passed in (sliced, stripped or re-coded on entry): '
                    'every segment and the final length are then those of another bundle', c)
+    # the sibling entry that takes a file object: the item gets the caller's file itself (it is measured and rewound when it is
+    # queued); a copy made on entry is taken from wherever the caller's position happens to be
+    fq = qual.rsplit('.', 1)[0] + '.send_bundle_fileobj'
+    if tree.has_func(rel, fq):
+        ff = FuncView(tree, rel, fq)
+        fparams = [a.arg for a in ff.func.args.args]
+        ob.require(len(fparams) >= 2, fq + '(self, file, ...)')
+        fp = fparams[1]
+        given = [kwarg(c2, 'file') for c2 in calls_in(ff.func) if (call_name(c2) or '').split('.')[-1] == 'BundleItem' and kwarg(c2, 'file') is not None]
+        given += [n.value for n in walk_local(ff.func) if isinstance(n, ast.Assign) and len(n.targets) == 1 and isinstance(n.targets[0], ast.Attribute) and n.targets[0].attr == 'file']
+        ob.require(given, 'file of the queued item in ' + fq)
+        rebinds = [n for n in walk_local(ff.func) if isinstance(n, ast.Name) and n.id == fp and isinstance(n.ctx, ast.Store)]
+        consumed = [c2 for c2 in calls_in(ff.func) if isinstance(c2.func, ast.Attribute) and isinstance(c2.func.value, ast.Name) and c2.func.value.id == fp and c2.func.attr in ('read', 'readline', 'readlines', 'readinto', 'truncate', 'write')]
+        for g in given:
+            if isinstance(g, ast.Name) and g.id == fp and not rebinds and not consumed:
+                ob.site(rel, g, fq + ': the queued item holds the file that was passed in')
+            else:
+                ob.violate(rel, fq, 'file = {}'.format(src((rebinds and enclosing(rebinds[0], ast.Assign)) or (consumed and consumed[0]) or g)[:70]), 'the item that is queued does not hold the file object that was passed in but something read from it on entry: '
+                           'read from the position the caller left the file at, the bundle that goes out is a tail of the one handed over (or nothing)', (consumed and consumed[0]) or g, sure=True)
 
 
 
@@ -395,7 +486,7 @@ def fresh_defaults(tree, ob, rels):
         for (r, qual, func) in tree.all_functions([rel]):
             for d in list(func.args.defaults) + [x for x in func.args.kw_defaults if x is not None]:
                 n += 1
-                if isinstance(d, (ast.Call, ast.List, ast.Dict, ast.Set, ast.ListComp, ast.DictComp, ast.SetComp)) and (call_name(d) or '') not in ('frozenset', 'tuple', 'field', 'dataclasses.field'):
+                if isinstance(d, (ast.Call, ast.List, ast.Dict, ast.Set, ast.ListComp, ast.DictComp, ast.SetComp)) and ((call_name(d) or '') if isinstance(d, ast.Call) else '') not in ('frozenset', 'tuple', 'field', 'dataclasses.field'):
                     ob.violate(rel, qual, '{}(... = {})'.format(func.name, src(d)[:40]), 'the default argument is one object made when the function was defined and shared by every call: objects that '
                                'should start empty (the bundle of a new container) accumulate what earlier uses put into them', d, sure=True)
     ob.site(rels[0], tree.module(rels[0]).tree, 'no default argument builds a shared mutable object ({} defaults in {} module(s))'.format(n, len(rels)))
@@ -509,3 +600,146 @@ def tx_queue_head_leaves_first(tree, ob, rel):
         ob.violate(rel, fv.qual, src(late[0])[:60] + ' before self._tx_queue.pop(0)', 'work on the head item starts before it has left the TX queue', late[0])
     else:
         ob.site(rel, t, 'the item leaves the TX queue before it is worked on')
+
+
+def tx_trigger_whenever_nonempty(tree, ob, rel, qual='Agent._process_tx_queue_trigger', queue='self._tx_queue', worker='self._process_tx_queue', allowed=()):
+    ''' whoever adds to the TX queue calls the trigger, and the worker stops re-arming itself once it raised or the queue ran
+    empty: the trigger therefore has to start the idle source whenever the queue holds something.  A guard that also looks at
+    HOW MANY items wait ("only the first one needs to start it") leaves the queue stuck for good after one failed send. '''
+    fv = FuncView(tree, rel, qual)
+    arms = [c for c in calls_in(fv.func) if pm('glib.idle_add({})'.format(worker), c) is not None]
+    ob.require(arms, 'idle_add({}) in {}'.format(worker, qual))
+    for c in arms:
+        facts = [(t, p) for (t, p) in (fv.facts(c) or ()) if not t.startswith('isinstance(') and (t, p) not in allowed]
+        bad = [(t, p) for (t, p) in facts if not ((t == queue and p is True) or (t == 'len({})'.format(queue) and p is True) or (t in ('len({}) > 0'.format(queue), 'len({}) >= 1'.format(queue), 'len({}) != 0'.format(queue)) and p is True)
+                                                   or (t in ('len({}) == 0'.format(queue),) and p is False))]
+        if bad:
+            ob.violate(rel, fv.qual, 'glib.idle_add({}) under {}'.format(worker, ' and '.join(('' if p else 'not ') + t for (t, p) in bad))[:120],
+                       'the TX worker is started only under a condition other than "the queue holds something": with items waiting and no idle source running (the worker '
+                       'ended on a failed send) nothing is ever sent again', c)
+        else:
+            ob.site(rel, c, 'the trigger starts the worker whenever the queue holds something')
+
+
+def optional_record_guarded(tree, ob, rel, cls='Agent'):
+    ''' a per-peer / per-transfer record made as a dict literal starts with some keys at None ("not yet").  Arithmetic, an
+    ordering comparison or an attribute access on such a key is only reached under "<rec>[key] is not None": the first
+    datagram / first event finds it None, the TypeError aborts the handler (the datagram is lost, a GLib source that
+    returns nothing is removed).  Equality tests, passing the value on and assigning to it are free. '''
+    keys = {}
+    for (r, qual, func) in tree.all_functions([rel]):
+        if not qual.startswith(cls + '.'):
+            continue
+        for n in walk_local(func):
+            if isinstance(n, ast.Dict):
+                for (k, v) in zip(n.keys, n.values):
+                    if isinstance(k, ast.Constant) and isinstance(k.value, str) and isinstance(v, ast.Constant) and v.value is None:
+                        keys.setdefault(k.value, n)
+    ob.require(keys, 'records with keys that start at None in {}'.format(rel))
+    uses = 0
+    for (r, qual, func) in tree.all_functions([rel]):
+        if not qual.startswith(cls + '.'):
+            continue
+        fv = None
+        for n in walk_local(func):
+            subs = []
+            if isinstance(n, ast.BinOp):
+                subs = [n.left, n.right]
+            elif isinstance(n, ast.AugAssign):
+                subs = [n.target]
+            elif isinstance(n, ast.Compare) and any(isinstance(o, (ast.Lt, ast.LtE, ast.Gt, ast.GtE)) for o in n.ops):
+                subs = [n.left] + list(n.comparators)
+            elif isinstance(n, ast.Attribute):
+                subs = [n.value]
+            elif isinstance(n, ast.UnaryOp) and isinstance(n.op, (ast.USub, ast.Invert)):
+                subs = [n.operand]
+            for s in subs:
+                if not (isinstance(s, ast.Subscript) and isinstance(s.slice, ast.Constant) and s.slice.value in keys):
+                    continue
+                uses += 1
+                if fv is None:
+                    fv = FuncView(tree, rel, qual)
+                t = src(s)
+                facts = fv.facts(n) or ()
+                if (t + ' is None', False) in facts or (t + ' is not None', True) in facts or (t, True) in facts:
+                    ob.site(rel, n, '{} used under "is not None"'.format(t))
+                else:
+                    ob.violate(rel, qual, '{} in {}'.format(t, src(n)[:50]), 'the key {!r} of this record starts at None and is used in arithmetic / ordering / attribute access without an '
+                               '"is not None" test on the way: the first event for a peer raises TypeError out of the handler (the datagram that carried it is dropped)'.format(s.slice.value), n, sure=True)
+    if not uses:
+        ob.site(rel, keys[sorted(keys)[0]], 'keys {} are never used in arithmetic, ordering or attribute access'.format(sorted(keys)))
+
+
+def divisions_guarded(tree, ob, rels, audited=()):
+    ''' a division whose divisor is computed from what the peer sent (an acknowledged length, a difference of two of them)
+    is zero for some peer behaviour; the ZeroDivisionError leaves the message handler, the message is not acted on (no
+    finished signal, the transfer stays listed) .  Every `/`, `//`, `%` with a non-constant divisor is either under a test
+    that excludes zero or names a divisor audited here (one line of reason each). '''
+    n = 0
+    for rel in rels:
+        for (r, qual, func) in tree.all_functions([rel]):
+            fv = None
+            for node in walk_local(func):
+                if isinstance(node, ast.BinOp) and isinstance(node.op, (ast.Div, ast.FloorDiv, ast.Mod)):
+                    d = node.right
+                elif isinstance(node, ast.AugAssign) and isinstance(node.op, (ast.Div, ast.FloorDiv, ast.Mod)):
+                    d = node.value
+                else:
+                    continue
+                if isinstance(node, ast.BinOp) and isinstance(node.op, ast.Mod) and (isinstance(node.left, (ast.Constant, ast.JoinedStr)) and isinstance(getattr(node.left, 'value', ''), str)):
+                    continue    # text formatting
+                if isinstance(d, ast.Constant) or (isinstance(d, ast.Call) and (call_name(d) or '').split('.')[-1] in ('timedelta',)):
+                    continue
+                # scapy stacks layers with "/": an operand that constructs a packet (Capitalised(...)) is no number
+                if any(isinstance(x, ast.Call) and ((call_name(x) or '').split('.')[-1][:1].isupper()) for x in ast.walk(node)):
+                    continue
+                if isinstance(node, ast.BinOp) and isinstance(node.left, ast.Call) and not (call_name(node.left) or '').split('.')[-1] in ('len', 'int', 'float', 'max', 'min', 'abs', 'total_seconds'):
+                    continue
+                n += 1
+                t = src(d)
+                if (rel, qual, t) in audited:
+                    ob.site(rel, node, 'division by {} (audited)'.format(t))
+                    continue
+                if fv is None:
+                    fv = FuncView(tree, rel, qual)
+                facts = fv.facts(node) or ()
+                ok = any((ft == t and p is True) or (ft in ('{} > 0'.format(t), '{} != 0'.format(t), '0 < {}'.format(t)) and p is True) or (ft in ('{} == 0'.format(t), '{} <= 0'.format(t)) and p is False) for (ft, p) in facts)
+                if ok:
+                    ob.site(rel, node, 'division by {} under a test that excludes zero'.format(t))
+                else:
+                    ob.violate(rel, qual, '{}  (divisor {})'.format(src(node)[:60], t), 'a division by a value that is zero for some input (here: a difference of acknowledged lengths the peer chooses) and is not tested first: '
+                               'ZeroDivisionError leaves the handler, the message that triggered it has no effect (no finished signal, the transfer stays in the send queue)', node, sure=True)
+    return n
+
+
+def route_tables_append_only(tree, ob, rel='bp/agent.py'):
+    ''' the configured routes carry the operator's parameters (the MTU of a link above all).  At run time the agent adds
+    routes (add_tx_route, peer discovery) behind the configured ones -- first match wins, so they never shadow them -- and
+    does nothing else to the tables.  An entry that is replaced in place (a "refresh" of a discovered peer) swaps a configured
+    route for one without its MTU: the next large bundle goes out unfragmented. '''
+    MUT = ('insert', 'remove', 'pop', 'clear', 'sort', 'reverse', 'extend', '__setitem__', '__delitem__')
+    n = 0
+    for (r, qual, func) in tree.all_functions([rel]):
+        aliases = {'self._config.tx_route_table', 'self._config.rx_route_table'}
+        for node in walk_local(func):
+            if isinstance(node, ast.Assign) and len(node.targets) == 1 and isinstance(node.targets[0], ast.Name) and src(node.value) in aliases:
+                aliases.add(node.targets[0].id)
+        for node in walk_local(func):
+            bad = None
+            if isinstance(node, (ast.Assign, ast.AugAssign, ast.Delete)):
+                tgts = node.targets if not isinstance(node, ast.AugAssign) else [node.target]
+                for t in tgts:
+                    if isinstance(t, ast.Subscript) and src(t.value) in aliases:
+                        bad = t
+                    if isinstance(t, ast.Attribute) and src(t) in ('self._config.tx_route_table', 'self._config.rx_route_table'):
+                        bad = t
+            if isinstance(node, ast.Call) and isinstance(node.func, ast.Attribute) and src(node.func.value) in aliases:
+                if node.func.attr in MUT:
+                    bad = node
+                elif node.func.attr == 'append':
+                    n += 1
+                    ob.site(rel, node, '{}: a route is added behind the existing ones'.format(qual))
+            if bad is not None:
+                ob.violate(rel, qual, src(node)[:80], 'a route table is changed at run time other than by appending: a configured route (with its MTU) can be replaced or dropped, '
+                           'bundles then leave unfragmented or by another route than configured', node, sure=True)
+    ob.require(n >= 1, 'appends to the route tables in ' + rel)
